@@ -52,10 +52,12 @@ func HarnessC11_Quorum() {
 		rs.MaxErrors = tol
 	}
 	cfg := DoUntilQuorumConfig{MinimizeRequests: vfChoice("minimize", 2) == 1}
-	hedging := cfg.MinimizeRequests && vfParam("hedge", 1) == 1 && vfChoice("hedging", 2) == 1
-	if hedging {
+	// a hedging delay may be configured without minimisation: it must then be ignored
+	hedgeCfg := vfParam("hedge", 1) == 1 && vfChoice("hedging", 2) == 1
+	if hedgeCfg {
 		cfg.HedgingDelay = time.Second
 	}
+	hedging := hedgeCfg && cfg.MinimizeRequests
 	terminalPred := vfParam("term", 1) == 1 && vfChoice("terminalpred", 2) == 1
 	if terminalPred {
 		cfg.IsTerminalError = func(err error) bool { return err == vfErrTerminal }
